@@ -53,14 +53,28 @@ def ell_oracle(Wq, T1, c1, a1, T2, c2, a2, s, x, y):
 # ------------------------------------------------------------------------------------------
 def rect_task(cone, W, slack_kind, tier):
     cr, uu, vo, oc = _mods()
-    W = np.asarray(W, dtype=float)
-    K, m = W.shape
-    order = make_order(W)
+    symbolic_W = W is None
+    if symbolic_W:
+        K = m = 2
+    else:
+        W = np.asarray(W, dtype=float)
+        K, m = W.shape
+        order = make_order(W)
+        Wq = Wz(W)
     proxy = NpProxy()
-    Wq = Wz(W)
     ex = Explorer(f"rect_is_covered[{cone},{slack_kind}]", query_timeout_ms=120000)
 
     def body(ctx):
+        nonlocal_W = None
+        if symbolic_W:
+            Ws = ctx.reals("w", K, m)
+            order_ = make_order(Ws)
+            Wq_ = zs(Ws)
+        else:
+            order_, Wq_ = order, Wq
+        return _rect_body(ctx, order_, Wq_)
+
+    def _rect_body(ctx, order, Wq):
         l1, u1, l2, u2 = (ctx.reals(n, m) for n in ("l1", "u1", "l2", "u2"))
         ctx.assume([l1 <= u1, l2 <= u2])
         if slack_kind == "scalar":
@@ -94,6 +108,9 @@ def rect_task(cone, W, slack_kind, tier):
                                  rect_oracle(Wq, L1, U1, L2, U2, sv, b, a)))
             mdl = ctx.prove("program feasible ⇒ returns True ∧ ∃z∃z' (oracle) at the witness", claim)
             if mdl is not None:
+                if symbolic_W:
+                    ex.inconclusive.append("stage-1 obligation refuted for the symbolic cone (no stage 2 there)")
+                    return
                 _stage2(ex, ctx, p, "feasible", ret, data, Wq)
                 return
         else:
@@ -104,6 +121,9 @@ def rect_task(cone, W, slack_kind, tier):
             claim = z3.And(z3.BoolVal(not ret), z3.Not(rect_oracle(Wq, L1, U1, L2, U2, sv, z, zp)))
             mdl = ctx.prove("program infeasible ⇒ returns False ∧ no oracle witness exists", claim)
             if mdl is not None:
+                if symbolic_W:
+                    ex.inconclusive.append("stage-1 obligation refuted for the symbolic cone (no stage 2 there)")
+                    return
                 _stage2(ex, ctx, p, "infeasible", ret, data, Wq)
                 return
         ctx.sample({"cone": cone, "slack": slack_kind, "outcome": p["outcome"], "ret": ret,
@@ -118,7 +138,7 @@ def rect_task(cone, W, slack_kind, tier):
         if not ex.witnessed.get(lab):
             r["inconclusive"].append(f"vacuity: outcome {lab} never reached")
     r["config"] = {"cone": cone, "m": m, "K": K, "slack": slack_kind, "region": "rect"}
-    r["concrete_validations"] = _validate_rect(W, 25 if tier == "quick" else 100, r)
+    r["concrete_validations"] = 0 if symbolic_W else _validate_rect(W, 25 if tier == "quick" else 100, r)
     return r
 
 
@@ -461,6 +481,8 @@ def tasks(tier, seed):
         for sk in (["vector"] if tier == "quick" else ["vector", "scalar"]):
             ts.append({"id": f"ell[{cone},{sk}]", "fn": "ell_task",
                        "args": {"cone": cone, "W": W.tolist(), "slack_kind": sk, "tier": tier}, "weight": 5})
+    ts.append({"id": "rect[symbolic 2x2 cone]", "fn": "rect_task",
+               "args": {"cone": "symbolic2x2", "W": None, "slack_kind": "vector", "tier": tier}})
     ts.append({"id": "status_mapping", "fn": "status_task", "args": {"tier": tier}})
     return ts
 
